@@ -430,11 +430,10 @@ func c07RunConc(c *mon.Ctx, seed uint64) {
 		}
 
 		prevShared, prevEnc = shared, sharedEnc
+		hexIn := mon.H(in)
 		jobs = append(jobs, func() string {
-			if !bytes.Equal(shared.Encode(), sharedEnc) || shared.Hex() != mon.H(sharedEnc) {
-				return "Encode/Hex of a scalar that another goroutine is also encoding"
-			}
-
+			// the decode comes first: in a cold process it is the first use of the library, made by all goroutines within
+			// a fraction of a microsecond of each other
 			s := mon.Scal(big.NewInt(77))
 
 			var err error
@@ -445,11 +444,15 @@ func c07RunConc(c *mon.Ctx, seed uint64) {
 			case 1:
 				err = s.UnmarshalBinary(in)
 			default:
-				err = s.DecodeHex(mon.H(in))
+				err = s.DecodeHex(hexIn)
 			}
 
 			if (err == nil) != accept {
 				return fmt.Sprintf("decode of %x: accepted=%v, want %v", v, err == nil, accept)
+			}
+
+			if !bytes.Equal(shared.Encode(), sharedEnc) || shared.Hex() != mon.H(sharedEnc) {
+				return "Encode/Hex of a scalar that another goroutine is also encoding"
 			}
 
 			if accept && (mon.ScalVal(s).Cmp(v) != 0 || !bytes.Equal(s.Encode(), in) || s.Hex() != mon.H(in)) {
